@@ -83,4 +83,10 @@ pub fn main() {
         }
     }
     println!("UNHEX2 2 {}", s);
+    // the two checksum functions the library selects (src/crc.rs X25, CASTAGNOLI) on every one-byte message: with the fixed initial
+    // register every entry of a 256-entry lookup table is used by exactly one of them
+    let s: String = (0..=255u8).map(|b| row(4, move || format!("{:04x}", bp7::crc::X25.checksum(&[b])))).collect();
+    println!("CRC16B 4 {}", s);
+    let s: String = (0..=255u8).map(|b| row(8, move || format!("{:08x}", bp7::crc::CASTAGNOLI.checksum(&[b])))).collect();
+    println!("CRC32B 8 {}", s);
 }
